@@ -26,8 +26,14 @@ func coqBools(bs []bool) string {
 	return hx.List(s)
 }
 
-// libTime is the library's own decoding of an id (MessageID.Time), unix nanoseconds.
-func libTime(id int64) int64 { return proto.MessageID(id).Time().UnixNano() }
+// encTime reads an id the way newMessageID writes it: seconds in the high word, the
+// nanoseconds of the second in the low word (unix nanoseconds).
+func encTime(id int64) int64 { return (id>>32)*1_000_000_000 + int64(uint32(id)) }
+
+// specTime is the specification's reading: id / 2^32 seconds (rounded down to a nanosecond).
+func specTime(id int64) int64 {
+	return (id>>32)*1_000_000_000 + int64(uint64(uint32(id))*1_000_000_000>>32)
+}
 
 func max64(a, b int64) int64 {
 	if a > b {
@@ -54,12 +60,15 @@ func oracleIDs(clocks, ids []int64) (sig, desc string) {
 		if id%4 != 0 || proto.MessageID(id).Type() != proto.MessageFromClient {
 			return "id-not-client-typed", fmt.Sprintf("id %d of call %d is not divisible by 4 / not client-typed", id, i)
 		}
-		t := libTime(id)
+		t := encTime(id)
 		if t <= tprev && i > 0 {
 			return "id-time-not-later", fmt.Sprintf("id %d encodes time %d, not later than previous %d", id, t, tprev)
 		}
 		if clocks[i] > t+3 || t > max64(clocks[i], tprev+13) {
 			return "id-time-far-from-clock", fmt.Sprintf("id %d of call %d encodes %d ns; clock %d ns, previous encoded %d ns (allowed: clock-3 .. max(clock, prev+13))", id, i, t, clocks[i], tprev)
+		}
+		if lib := proto.MessageID(id).Time().UnixNano(); lib != specTime(id) || t-lib < 0 || t-lib >= 770_000_000 {
+			return "id-time-decoding", fmt.Sprintf("id %d: MessageID.Time() = %d ns, id/2^32 reading = %d ns, encoded instant = %d ns (want Time() = id/2^32 reading, 0..0.77 s before the encoded instant)", id, lib, specTime(id), t)
 		}
 		tprev = t
 	}
